@@ -55,6 +55,7 @@ CONTRACTS = {
     use_lemmas={'loop2.exit': [('C05/prefix-filter', {'r': 'lam(q, st_pref_length, pairs_row[q].rank_student)',
                                                      'x': 'lam(q, st_pref_length, nu(pairs_row[q].lp_var))',
                                                      'n': 'st_pref_length', 'idx': 'index', 'aim': 'aim_rank'})]},
+    asserts={'loop2.exit': [('wants-to-move-is-one-minus-the-variables-at-equal-or-better-rank', 's_i_wants_to_move_exp == wants(pairs_row, pair)')]},
     modifies=['self.info_string', 'ghost:feas'],
     ensures=[('constraints-are-exactly-alpha-beta-gamma-per-acceptable-pair',
               'feas() == (old(feas()) and forall(i, 0, self.model.num_students, row_ok(i, len(self.model.pairs[i]))))')]),
@@ -176,7 +177,7 @@ CONTRACTS = {
           'lm': ([], 'ite(len(cost_multipliers) < 2, 0, cost_multipliers[1])'),
           'cost': (['p'], 'nu(p.lp_var) * p.rank_student * sm() + ite(has(p, \'rank_lecturer\'), nu(p.lp_var) * p.rank_lecturer * lm(), 0)'),
           'total': ([], 'Sum(i, len(self.model.pairs), Sum(c, len(self.model.pairs[i]), cost(self.model.pairs[i][c])))'),
-          'UB': ([], 'self.model.num_students * self.model.num_projects * sm() + self.model.num_students * self.model.num_lecturers * lm()')},
+          'UB': ([], 'self.model.num_students * self.model.num_projects * sm() + self.model.num_students * self.model.num_students * lm()')},
     loops={0: dict(invariant=['sum_costs_exp == Sum(q, _k, cost(flat(self.model.pairs)[q]))'])},
     use_lemmas={'loop0.exit': [('FLAT/sum', {'rows': 'self.model.pairs', 'g': 'lam(x, 1, cost(ref(x)))'})]},
     modifies=['self.info_string', 'self.solve_performed', 'ghost:feas', 'ghost:val', 'ghost:status', 'ghost:hist', 'ghost:solves', 'ghost:objective', 'ghost:feas_at_solve', 'ghost:used:obj_mincost'],
@@ -192,7 +193,7 @@ CONTRACTS = {
           'lm': ([], 'ite(len(cost_multipliers) < 2, 0, cost_multipliers[1])'),
           'cost': (['p'], 'nu(p.lp_var) * (p.rank_student * p.rank_student) * sm() + ite(has(p, \'rank_lecturer\'), nu(p.lp_var) * (p.rank_lecturer * p.rank_lecturer) * lm(), 0)'),
           'total': ([], 'Sum(i, len(self.model.pairs), Sum(c, len(self.model.pairs[i]), cost(self.model.pairs[i][c])))'),
-          'UB': ([], '(self.model.num_students * len(self.model.rank_lists)) * (self.model.num_students * len(self.model.rank_lists)) * sm() + (self.model.num_lecturers * self.model.num_students) * (self.model.num_lecturers * self.model.num_students) * lm()')},
+          'UB': ([], '(self.model.num_students * len(self.model.rank_lists)) * (self.model.num_students * len(self.model.rank_lists)) * sm() + (self.model.num_students * self.model.num_students) * (self.model.num_students * self.model.num_students) * lm()')},
     loops={0: dict(invariant=['sum_costs_exp == Sum(q, _k, cost(flat(self.model.pairs)[q]))'])},
     use_lemmas={'loop0.exit': [('FLAT/sum', {'rows': 'self.model.pairs', 'g': 'lam(x, 1, cost(ref(x)))'})]},
     modifies=['self.info_string', 'self.solve_performed', 'ghost:feas', 'ghost:val', 'ghost:status', 'ghost:hist', 'ghost:solves', 'ghost:objective', 'ghost:feas_at_solve', 'ghost:used:obj_minsqcost'],
@@ -208,7 +209,7 @@ CONTRACTS = {
           'lm': ([], 'ite(len(cost_multipliers) < 2, 1, cost_multipliers[1])'),
           'cost': (['p'], 'nu(p.lp_var) * p.rank_student * sm()'),
           'total': ([], 'Sum(i, len(self.model.pairs), Sum(c, len(self.model.pairs[i]), cost(self.model.pairs[i][c]))) + Sum(k, len(self.model.abs_lec_diff), nu(self.model.abs_lec_diff[k])) * lm()'),
-          'UB': ([], 'self.model.num_students * self.model.num_projects * sm() + self.model.num_students * self.model.num_lecturers * lm()')},
+          'UB': ([], 'self.model.num_students * self.model.num_projects * sm() + Sum(k, len(self.model.lec_upper_quotas), self.model.lec_upper_quotas[k]) * lm()')},
     loops={0: dict(invariant=['sum_costs_exp == Sum(q, _k, cost(flat(self.model.pairs)[q]))'])},
     use_lemmas={'loop0.exit': [('FLAT/sum', {'rows': 'self.model.pairs', 'g': 'lam(x, 1, cost(ref(x)))'})]},
     modifies=['self.info_string', 'self.solve_performed', 'ghost:feas', 'ghost:val', 'ghost:status', 'ghost:hist', 'ghost:solves', 'ghost:objective', 'ghost:feas_at_solve', 'ghost:used:obj_mincostlsb'],
@@ -246,9 +247,8 @@ CONTRACTS = {
     defs={'o': ([], "namedvar('lec_sum_abs_diff')")},
     modifies=['self.info_string', 'self.solve_performed', 'ghost:feas', 'ghost:val', 'ghost:status', 'ghost:hist', 'ghost:solves', 'ghost:objective', 'ghost:feas_at_solve', 'ghost:used:lec_sum_abs_diff'],
     ensures=[('sum-of-deviations-linked-minimised-frozen',
-              'exists(mx, 0, self.model.num_lecturers, forall(k2, 0, self.model.num_lecturers, self.model.lec_upper_quotas[k2] <= self.model.lec_upper_quotas[mx]) and '
-              'feas() == (old(feas()) and 0 <= nu(o()) and nu(o()) <= self.model.lec_upper_quotas[mx] * self.model.num_students'
-              ' and nu(o()) >= Sum(k, len(self.model.abs_lec_diff), nu(self.model.abs_lec_diff[k])) and nu(o()) <= solved(o())))'),
+              'feas() == (old(feas()) and 0 <= nu(o()) and nu(o()) <= Sum(k, len(self.model.lec_upper_quotas), self.model.lec_upper_quotas[k])'
+              ' and nu(o()) >= Sum(k, len(self.model.abs_lec_diff), nu(self.model.abs_lec_diff[k])) and nu(o()) <= solved(o()))'),
              ('one-solve', 'solves() == old(solves()) + 1 and hist(old(solves())) == status()'), ('earlier-history-unchanged', 'forall(u, implies(u < old(solves()), hist(u) == old(hist(u))))'), ('solve-recorded', 'implies(solves() > old(solves()), self.solve_performed) and implies(solves() == old(solves()), self.solve_performed == old(self.solve_performed))'),
              ('minimises', 'objective() == 0 - nu(o())'), ('name-used', "used('lec_sum_abs_diff')")]),
 
